@@ -127,20 +127,21 @@ TCrash    == /\ Ev.ev = "crash"
 (* silent steps of a caller that still has a line to come *)
 
 Silent(c) ==
-    LET j == NextOwn(c) IN
-    /\ j # 0 /\ owed[c] = "-" /\ UNCHANGED i
-    /\ \/ StartSession(c) /\ UNCHANGED owed
-       \/ FindHeld(c) /\ ctxDone[c] /\ Trace[j].ev = "return" /\ UNCHANGED owed
-       \/ /\ pc[c] = "locked"
-          /\ IF Trace[j].ev = "enter"
-             THEN LoadOrDrawWith(c, AsSet(Trace[j].coords))
-             ELSE Read(hgt[c]).set /\ LoadOrDrawWith(c, {})
-          /\ UNCHANGED owed
-       \* return steps ahead of their line: the verdict is owed
-       \/ /\ Trace[j].ev = "return" /\ j # i
-          /\ \/ AllDone(c) /\ owed' = [owed EXCEPT ![c] = "ok"]
-             \/ ReturnNothing(c) /\ owed' = [owed EXCEPT ![c] = "notAvailable"]
-             \/ PersistAndReturn(c) /\ owed' = [owed EXCEPT ![c] = PersistVerdict(c)]
+    /\ Active(c) /\ owed[c] = "-" /\ UNCHANGED i
+    /\ LET j == NextOwn(c) IN
+         /\ j # 0
+         /\ \/ StartSession(c) /\ UNCHANGED owed
+            \/ FindHeld(c) /\ ctxDone[c] /\ Trace[j].ev = "return" /\ UNCHANGED owed
+            \/ /\ pc[c] = "locked"
+               /\ IF Trace[j].ev = "enter"
+                  THEN LoadOrDrawWith(c, AsSet(Trace[j].coords))
+                  ELSE Read(hgt[c]).set /\ LoadOrDrawWith(c, {})
+               /\ UNCHANGED owed
+            \* return steps ahead of their line: the verdict is owed
+            \/ /\ Trace[j].ev = "return" /\ j # i
+               /\ \/ AllDone(c) /\ owed' = [owed EXCEPT ![c] = "ok"]
+                  \/ ReturnNothing(c) /\ owed' = [owed EXCEPT ![c] = "notAvailable"]
+                  \/ PersistAndReturn(c) /\ owed' = [owed EXCEPT ![c] = PersistVerdict(c)]
 
 TraceNext ==
     /\ i <= N
